@@ -63,11 +63,31 @@ def watch_starts(codes):
             _start_codes.add(c)
 
 
+_global_lines = False      # cold-import runs: LINE events for every code object, filtered here
+_lib_dir = None
+
+
+def enable_global_lines(lib_dir):
+    """Cold-import runs (only ever in a forked child that exits afterwards): module-level code of the
+    library is created at import time, so it cannot be instrumented beforehand.  Turn LINE events on
+    globally and switch them off again, location by location, for everything outside the library."""
+    global _global_lines, _lib_dir
+    _claim_tool()
+    _lib_dir = lib_dir
+    _global_lines = True
+    _MON.set_events(TOOL_ID, _MON.events.LINE)
+
+
 def _on_line(code, line):
     h = line_hook
     if h is not None:
         h(code, line)
         return
+    if _global_lines and code not in _instrumented:
+        if not code.co_filename.startswith(_lib_dir):
+            return _MON.DISABLE
+        if code.co_name == '<module>':
+            _strong_codes.add(code)
     k = _K
     if k is None:
         return
@@ -284,6 +304,7 @@ class Kernel:
         self.sweep_at = None          # index of the strong-touch line event at which to force a switch
         self.sweep_count = 0
         self.sweep_hit = None
+        self.import_waits = 0         # times a thread waited (through the baton) for a module import lock
         self.mean_budget = mean_budget
         self.recorded = []            # [[tid, lines_actually_run], ...]
         self.max_decisions = max_decisions
